@@ -143,6 +143,7 @@ def handler (op : String) (j : Json) : Option (R Json) :=
     let delays ← getNatList j "delays"
     pure <| Json.mkObj [("crop", jnat (padCrop alphas delays)),
       ("padded", jarr ((padded alphas delays).map intList)),
+      ("prologues", natList (prologues 0 alphas delays)),
       ("cropOfPadded", jnat (Tdm.cropValue (padded alphas delays) delays))]
   | _ => none
 
